@@ -5,6 +5,7 @@ With --tests, stage 2 runs the pinned baseline tests on the mutants no check fir
 'killed by the existing tests' from 'survives tests and checks' (the list to triage: equivalent mutant or blind spot).
 Results: tools/automut_last.json"""
 import sys, os, re, glob, json, subprocess, tempfile, shutil
+subprocess.run(["/verif/tools/trimcache.sh"])  # keep the Go build cache bounded: every scratch copy adds entries
 from concurrent.futures import ThreadPoolExecutor
 root = sys.argv[1]
 do_tests = "--tests" in sys.argv
